@@ -15,7 +15,7 @@ Inductive ty :=
 | TWrap (t : ty)                                       (* Option, MaybeUninit, [T; N] *)
 | TTuple (l : list ty)
 | TUnsafeCell (t : ty) | TPhantom (t : ty)
-| TArc (t : ty) | TBoxLike (t : ty)                    (* VecDeque / Vec / Box *)
+| TArc (t : ty) | TBoxLike (t : ty)                    (* VecDeque / Vec *)
 | TLockMutex (r t : ty)                                (* lock_api::Mutex<R, T> *)
 | TPinned                                              (* PhantomPinned *)
 | TLeaf (send sync unpin : bool).
@@ -54,7 +54,7 @@ Section Eval.
         | TUnsafeCell u => let b := eval k env u in mkB (b_send b) false (b_unpin b)
         | TPhantom u => eval k env u
         | TArc u => let b := eval k env u in mkB (b_send b && b_sync b) (b_send b && b_sync b) true
-        | TBoxLike u => let b := eval k env u in mkB (b_send b) (b_sync b) true
+        | TBoxLike u => eval k env u     (* Vec / VecDeque own their elements (PhantomData<T>): all three follow T *)
         | TLockMutex r u =>
             let br := eval k env r in let bu := eval k env u in
             mkB (b_send br && b_send bu) (b_sync br && b_send bu) (b_unpin br && b_unpin bu)
@@ -76,7 +76,7 @@ Section Eval.
         end
     end.
 
-  Definition FUEL : nat := 40.
+  Definition FUEL : nat := 14.
 
   (* the bits of [name<params>] when its parameters have the bits [env] *)
   Definition holds (tr : trait) (name : string) (env : list bits) : bool :=
